@@ -8,8 +8,8 @@ tests/parsers/iora_test_minimal_toml_serializer_array_of_tables.cpp, tests/core/
      one named deviation per decision point.  spec/extra/Toml.tla is the generator: its states are ALL documents of up to
      MaxLen lines per family; invariants Refines (for every Dev_* flag TLC must report the slip) and AbsLaws.
   2. every state is a case: harness/drv_toml.cpp (ASan+UBSan) runs parse -> flatten -> serialize -> parse -> flatten ->
-     serialize on the real code; documents on which the model predicts non-termination run in a child of their own under a
-     CPU-time limit.
+     serialize on the real code, every document in a child of its own under a CPU-time limit (non-termination of the
+     first or of the second parse is an outcome, not a stall of the check).
   3. TLC validates the events against spec/extra/TomlTrace.tla.  A result outside the TOML semantics that is EXACTLY the
      documented as-built behaviour is reported as OBSERVATION Dev_<name> (see X16.meta.json 'observations'; the check
      stays green), anything else is a VIOLATION - so the deviations are pinned as they are: a new one, or a change of an
@@ -180,7 +180,7 @@ def drive_and_judge(ck, tag, lines_in):
     if crashed or hung:
         ck.note("driver: %d crashed, %d hung; sanitizer output: %s" % (crashed, hung, xc.worker_stderr(op, 1500)))
     xc.report_bad(ck, "TomlTrace", lines, bad, lambda ln: lines_in[ln - 1])
-    by = xc.report_obs(ck, lines, obs, xc.load_observations("X16"))
+    by = xc.report_obs(ck, lines, obs, xc.load_observations("X16"), limit=1)
     return lines, bad, by
 
 
@@ -229,7 +229,7 @@ def run(ck):
     def text_of(c):
         ls = [lexemes[x]["txt"] for x in c["lex"]]
         return "".join(s + ("\n" if (j < len(ls) - 1 or c["nl"]) else "") for j, s in enumerate(ls))
-    lines_in = ["T %s %d %s %s" % ("h" if c["bp1"] == "hang" else "-", 1 if c["nl"] else 0, ",".join(c["lex"]) or "-", text_of(c).encode().hex() or "-")
+    lines_in = ["T h %d %s %s" % (1 if c["nl"] else 0, ",".join(c["lex"]) or "-", text_of(c).encode().hex() or "-")
                 for c in cases]
     lines, bad, by = drive_and_judge(ck, "toml", lines_in)
     badset = {ln for ln, _ in bad}
